@@ -128,6 +128,10 @@ func c17newFx(cs c17cer) (fx *c17fx, err error) {
 			err = fmt.Errorf("fixture panic: %v", r)
 		}
 	}()
+	// Every ceremony runs on the full fixture: the state is inside a ceremony period at every height a script can reset
+	// to, as on a real chain (a state in NonePeriod while candidates exist made the reset handler of /repo 5deb1a6c drop
+	// them — correctly for a real chain, where that means the flip-lottery block was reverted; false alarm of round 3).
+	cs.Full = true
 	fx = &c17fx{cs: cs, idOf: map[common.Address]int{}, candIdx: map[int]int{}, cands: map[int][]common.Address{}, baseH: 1, refCache: map[string]*c17result{}}
 	nShards := cs.Shards
 	if nShards < 1 {
@@ -720,6 +724,7 @@ func c17runCer(cs c17cer) (lines *c17lines, fails []c17failure, evals int, tags 
 	if err != nil {
 		return nil, nil, 0, nil, err
 	}
+	cs.Full = true
 	lines = &c17lines{}
 	l := lines
 	l.add(fmt.Sprintf("new cer %d %s %s", cs.Epoch, b01(cs.U10), b01(cs.U12)), "ok")
@@ -1001,9 +1006,7 @@ func c17emitCer(c *hx.Ctx, cs c17cer) error {
 			break
 		}
 	}
-	if cs.Full {
-		c.Hit("cer:full-fixture")
-	}
+	c.Hit("cer:full-fixture")
 	if cs.Shards > 1 {
 		c.Hit(fmt.Sprintf("cer:shards=%d", cs.Shards))
 	} else {
@@ -1236,9 +1239,7 @@ func c17script(c *hx.Ctx, cs *c17cer, ntx int, scripted int) {
 	if mode < 0 {
 		mode = r.Intn(4)
 	}
-	if cs.Full && mode != 0 {
-		mode = 4
-	}
+
 	switch mode {
 	case 0: // arrival order + restarts, first vs cached evaluation
 		for _, b := range split(perm) {
@@ -1367,7 +1368,7 @@ func c17ceremonies(c *hx.Ctx) error {
 	n := c.Scale(150, 1500)
 	for i := 0; i < n; i++ {
 		cs := c17genCer(c)
-		cs.Full = i%4 == 3 // a quarter of the ceremonies on the full fixture: mostly rollbacks over the validation-finishing block
+		cs.Full = true
 		fx, err := c17newFx(cs)
 		if err != nil {
 			return err
@@ -1376,8 +1377,8 @@ func c17ceremonies(c *hx.Ctx) error {
 		if i < 8 {
 			mode = i % 4 // the scripted ones first: every mode at least twice
 		}
-		if cs.Full && i%16 == 15 {
-			mode = 0 // plain ceremony through the real addBlock
+		if i >= 8 && i%4 == 3 {
+			mode = 4 // a quarter of the ceremonies: rollback over the validation-finishing block
 		}
 		c17script(c, &cs, len(fx.txs), mode)
 		if err := c17emitCer(c, cs); err != nil {
